@@ -14,9 +14,9 @@
 (* cursor/Line/Column again (peeks must not move anything).                *)
 (* A failing line is printed and the run continues (see TraceBase idiom).  *)
 (***************************************************************************)
-EXTENDS Scanner, Json, TLC
+EXTENDS Scanner, Json, TLC, Held
 
-VARIABLE l
+VARIABLES l, other     \* other: <<content, position>> of a second scanner that stays alive while the current one is used
 Trace == ndJsonDeserialize("trace.ndjson")
 
 \* Each clause contributes its name when it fails; "" means the event is accepted.
@@ -31,22 +31,24 @@ ObsFails(o, s, i) ==   \* s, i: content and position AFTER the call
   \o F(o.k2 = o.k /\ o.line2 = o.line /\ o.col2 = o.col, "a peek moved the cursor")
 
 Apply(e) ==
-  CASE e.op = "new"        -> content' = e.content /\ k' = 0
-    [] e.op = "read"       -> Read
-    [] e.op = "unread"     -> Unread
-    [] e.op = "unreadmany" -> UnreadMany(e.n)
-    [] e.op = "reset"      -> Reset
+  CASE e.op = "new"        -> content' = e.content /\ k' = 0 /\ other' = IF e.first THEN <<<<>>, 0>> ELSE other
+    [] e.op = "read"       -> Read /\ UNCHANGED other
+    [] e.op = "unread"     -> Unread /\ UNCHANGED other
+    [] e.op = "unreadmany" -> UnreadMany(e.n) /\ UNCHANGED other
+    [] e.op = "reset"      -> Reset /\ UNCHANGED other
+    \* the two scanners change places: each is exactly where it was left, whatever was done with the other one meanwhile
+    [] e.op = "switch"     -> content' = other[1] /\ k' = other[2] /\ other' = <<content, k>>
 
 RetFails(e) == F(e.op = "read" => e.ret = ReadRet, "read returned the wrong character")
 
-Init == l = 1 /\ content = <<>> /\ k = 0
+Init == l = 1 /\ content = <<>> /\ k = 0 /\ other = <<<<>>, 0>>
 Next ==
   /\ l <= Len(Trace)
   /\ l' = l + 1
   /\ LET e == Trace[l] IN
      /\ Apply(e)
      /\ LET f == RetFails(e) \o ObsFails(e.obs, content', k') IN
-        f = "" \/ PrintT("VERIF-FAIL " \o ToString(l) \o " " \o f)
-Spec == Init /\ [][Next]_<<l, content, k>>
+        Report(l, f, Trace[l])
+Spec == Init /\ [][Next]_<<l, content, k, other>>
 Accepted == TLCGet("stats").diameter - 1 = Len(Trace)
 =============================================================================
